@@ -447,7 +447,9 @@ func (e *Exec) atomicInterference(st *State, recv Val, loc *Loc) {
 		}
 	}
 	old := e.loadFrom(st, loc, false)
+	st.quiet++
 	e.havocLoc(st, loc, false)
+	st.quiet--
 	nw := e.loadFrom(st, loc, false)
 	if mono {
 		// once set, never changes
